@@ -364,6 +364,8 @@ func checkC18(w *World, r *Report) {
 						container, what = cc.Args[0], full
 					case full == "reflect.Swapper" || full == "reflect.Copy":
 						container, what = cc.Args[0], full
+					case full == "reflect.Append" || full == "reflect.AppendSlice":
+						container, what = cc.Args[0], full+" (may write spare capacity)"
 					}
 				}
 			}
